@@ -38,6 +38,14 @@ var c16types = []xtype{
 	{"string", "string", "str", []string{"b", "abc", "", "Zeta", "é"}, true},
 	{"boolean", "boolean", "bool", []string{"true", "false"}, false},
 	{"enum", "enumeration { enum lo; enum mid; enum hi; }", "enum", []string{"lo", "mid", "hi"}, false},
+	// a value of one member type against a literal of the other: only != holds
+	{"union", "union { type int32; type string; }", "uni", []string{"5", "none", "-7", "x1", "10"}, true},
+}
+
+// which member a text of the union { int32; string } is: the first one that takes it
+func c16uniIsInt(text string) bool {
+	n, err := strconv.ParseInt(text, 10, 32)
+	return err == nil && strconv.FormatInt(n, 10) == text
 }
 
 // a value near a literal: below, equal, above (numerically / lexically), within the type's range
@@ -69,6 +77,12 @@ func c16near(r *core.Rng, t xtype, lit string) string {
 		return core.Pick(r, []string{lit, lit, lit + "a", "a", "", "B", "c", "é", "Zeta", "abd", "ab"})
 	case "bool":
 		return core.Pick(r, []string{"true", "false"})
+	case "uni":
+		if c16uniIsInt(lit) && r.Chance(50) {
+			n, _ := strconv.Atoi(lit)
+			return strconv.Itoa(n + r.Intn(3) - 1)
+		}
+		return core.Pick(r, []string{lit, "none", "x1", "x2", "5", "-7", "11", "a"})
 	}
 	return core.Pick(r, []string{"lo", "mid", "hi"})
 }
@@ -110,6 +124,11 @@ func c16tok(t xtype, text string) string {
 			return "b1"
 		}
 		return "b0"
+	case "uni":
+		if c16uniIsInt(text) {
+			return "i" + text
+		}
+		return "s" + core.Hex(text)
 	}
 	return "e" + core.Hex(text)
 }
@@ -118,6 +137,10 @@ func c16json(t xtype, text string) string {
 	switch t.kind {
 	case "int", "dec", "bool":
 		return text
+	case "uni":
+		if c16uniIsInt(text) {
+			return text
+		}
 	}
 	b, _ := json.Marshal(text)
 	return string(b)
@@ -524,6 +547,11 @@ func c16goVal(t xtype, text string) interface{} {
 		return f
 	case "bool":
 		return text == "true"
+	case "uni":
+		if c16uniIsInt(text) {
+			n, _ := strconv.ParseInt(text, 10, 32)
+			return int32(n)
+		}
 	}
 	return text
 }
@@ -884,7 +912,7 @@ func c16leafProbes(c *core.Ctx) {
 }
 
 func C16(c *core.Ctx) {
-	c.Rule = "generated modules placing 'when' on leaves (sibling, nested-path and through-a-list operands), containers and lists (own operands, per entry), on uses (leaf, container with and without a condition of its own, list) and on augments; operands of every integer type incl. 64-bit extremes, decimal64, string, boolean, enumeration; all six operators and plain existence paths; data with the operand unset, at and one step around the literal, at the type's extremes; (i) read (WriteJSON) from the JSON reader and from reflection over typed maps compared with the Lean model, (ii) ?where= on lists and ?filter= on a notification stream compared with the model's filter, (iii) upsert of a conditional leaf / of a leaf inside a conditional container into a reflection store: written iff the model says the conditions hold, nothing else changed. non-trivial = read where ≥1 condition is false and ≥1 true; distinct by (module, tree, source)"
+	c.Rule = "generated modules placing 'when' on leaves (sibling, nested-path and through-a-list operands), containers and lists (own operands, per entry), on uses (leaf, container with and without a condition of its own, list) and on augments; operands of every integer type incl. 64-bit extremes, decimal64, string, boolean, enumeration; all six operators and plain existence paths; data with the operand unset, at and one step around the literal, at the type's extremes; (i) read (WriteJSON) from the JSON reader and from reflection over typed maps compared with the Lean model, (ii) ?where= on lists and ?filter= on a notification stream compared with the model's filter, (iii) upsert of a conditional leaf / of a leaf inside a conditional container into a reflection store: written iff the model says the conditions hold, nothing else changed; directed: keyed Find of entries hidden by their list's condition; comparisons with a union operand; conditions reaching a node through nested uses, through a choice or a case (stated there, or on the uses / augment that brings them in). non-trivial = read where ≥1 condition is false and ≥1 true; distinct by (module, tree, source)"
 	c.Assumptions = append(c.Assumptions,
 		"operands of a condition and the nodes on the way to them carry no condition themselves (the model does not chain conditions of operands)",
 		"a leaf's own condition is evaluated in the container that holds the leaf, a container's / list entry's own condition in itself (the library's convention, pinned by its tests), a condition from uses/augment in the parent (RFC 7950 §7.21.5)",
